@@ -153,6 +153,9 @@ func WetterK(VWDAT string, year int, g *GlobalVarsMain, s *WeatherDataShared, hP
 		if Tlast+1 != T {
 			return fmt.Errorf("%s Failed to parse file: %s, error: missing days", g.LOGID, VWDAT)
 		}
+		if T > daysInYear(year) {
+			return fmt.Errorf("%s Failed to parse file: %s, error: day %d does not exist in %d", g.LOGID, VWDAT, T, year)
+		}
 		Tlast = T
 		Tindex := T - 1
 		s.TMP[0][Tindex] = ValAsFloat(Wettin[0], VWDAT, WETTER)
